@@ -89,7 +89,7 @@ Section M.
         match k_wf_ref_sphere O pupil_z (col rx l0 recs) 1%Z (col ry l0 recs) (col rz l0 recs) with
         | None => None
         | Some (xc, yc, zc, R) =>
-            let p := k_wf_path_length O xc yc zc R (col ropd l0 recs) (col rx l0 recs) (col ry l0 recs)
+            let p := k_wf_get_path_length O xc yc zc R (col ropd l0 recs) (col rx l0 recs) (col ry l0 recs)
                        (col rz l0 recs) (col rL l0 recs) (col rM l0 recs) (col rN l0 recs) in
             let ref := k_wf_tilt_xy O p (ofZ 0) (ofZ 0) (w_ftype c) Hx Hy (w_maxx c) (w_maxy c) (w_EPD c) in
             Some (xc, yc, zc, R, ref)
